@@ -2019,9 +2019,17 @@ impl<'a> Searcher<'a> {
 
             // the pattern operators work on the text of any value (`size like '1%'`); every other
             // operator goes by the type of the value
-            let value_type = match op {
-                Op::Rx | Op::NotRx | Op::Like | Op::NotLike => &VariantType::String,
-                _ => field_value.get_type(),
+            let left_is_literal = expr
+                .left
+                .as_ref()
+                .is_some_and(|left| left.val.is_some() && left.function.is_none());
+            let value_type = match (op, field_value.get_type(), value.get_type()) {
+                (Op::Rx | Op::NotRx | Op::Like | Op::NotLike, _, _) => &VariantType::String,
+                // a whole number against a fraction (`hardlinks = 5 / 2`) is compared as it is, not cut
+                (_, VariantType::Int, VariantType::Float) => &VariantType::Float,
+                // a literal on the left (`8 < size`) is read as what it is compared with
+                (_, VariantType::String, right_type) if left_is_literal => right_type,
+                (_, left_type, _) => left_type,
             };
 
             result = match value_type {
